@@ -216,7 +216,7 @@ def check_C05(ctx):
     ctx.cov["rule"] = ("(1) Pipeline.tla: the FOR expander (one TLA+ case per forStateFn) and the Tokens() consumer as a two-process protocol over token classes; TLC checks NoLeak, Shape and the liveness "
                        "property Terminates (weak fairness) for EVERY token-class sequence up to length L and for every block-shaped input with bodies up to L tokens. "
                        "(2) spec -> code: every input enumerated by TLC is printed with the output the spec determines and replayed through the REAL ForExpand (verif accessor): identical output classes, "
-                       "the call returns, no (*forExpander).run / (*lexer).run goroutine survives. (3) every EQU reference graph on <= 3 names x {operand, ;assert, FOR count, ORG, unused} assembled under a "
+                       "the call returns, no (*forExpander).run / (*lexer).run goroutine survives; the same for the lexer over rune classes (Lexer.tla), the symbol scanner (Scanner.tla) and the parser (Parser.tla, 108 482 inputs) over token classes, each replayed through the real code with exact output comparison. (3) every EQU reference graph on <= 3 names x {operand, ;assert, FOR count, ORG, unused} assembled under a "
                        "deadline: error iff a used name is on a cycle (TLC decides). (4) byte-level fuzz corpus (repository warriors, mutations, soup, invalid UTF-8, NUL, ^Z, CR/LF mixes, unterminated "
                        "lines; FOR counts tamed) x 7 configurations, and EVERY sequence of up to 3 (quick) / 4 (thorough) source tokens over a 26-token alphabet: TLC checks the terminal-state predicate (returned, err xor warrior, no surviving goroutine, within the deadline). "
                        "distinct_nontrivial = TLC-generated cases replayed + graph scenarios + fuzz inputs.")
@@ -266,6 +266,17 @@ def check_C05(ctx):
         ctx.violation("C05 scanner %s" % ("panic" if e["panic"] else "output"), "symbol scanner on %s: expected %s for=%s err=%s, got %s for=%s err=%s %s" % (
             [x["t"] for x in e["in"]], e["want"], e["wantfor"], e["wanterr"], e["got"], e["gotfor"], e["goterr"], e["panic"]), dict(kind="scan", case=e["case"]))
     ctx.notes["scanner_cases_replayed"] = n
+    # (2d) the parser: every token-class input up to L, replayed through the real parser
+    path, n, r5 = tlc_cases(ctx, "Parser_emit.cfg" if ctx.quick else "Parser_emit_thorough.cfg", module="Parser")
+    total_cases += n
+    outp = os.path.join(ctx.sub("parse"), "pa")
+    st = ctx.harness_json(["parse", "-in", path, "-out", outp])
+    if st["cases"] != n and st["mismatches"] == 0:
+        raise ToolError("parse replayed %d of %d cases" % (st["cases"], n))
+    for e in read_lines(outp + ".000.ndjson")[:20]:
+        ctx.violation("C05 parser %s" % ("panic" if e["panic"] else "output"), "parser on %s: expected %s err=%s, got %s err=%s %s" % (
+            [x["v"] or x["t"] for x in e["in"]], e["want"], e["wanterr"], e["got"], e["goterr"], e["panic"]), dict(kind="parse", case=e["case"]))
+    ctx.notes["parser_cases_replayed"] = n
     # (3) EQU graphs
     egp = os.path.join(ctx.sub("eg"), "eg")
     crashes = run_restartable(ctx, "equgraphs", [], egp)
@@ -345,6 +356,17 @@ def replay_scan(ctx, payload):
     ctx.cov["traces_validated_against_impl"] = 1
     if st["mismatches"]:
         ctx.violation(payload["signature"], payload["what"], dict(kind="scan", case=payload["case"]))
+
+
+def replay_parse(ctx, payload):
+    d = ctx.sub("replay")
+    src = os.path.join(d, "case.ndjson")
+    open(src, "w").write(json.dumps(payload["case"]) + "\n")
+    st = ctx.harness_json(["parse", "-in", src, "-out", os.path.join(d, "o")])
+    ctx.cov["evaluations"] = 1
+    ctx.cov["traces_validated_against_impl"] = 1
+    if st["mismatches"]:
+        ctx.violation(payload["signature"], payload["what"], dict(kind="parse", case=payload["case"]))
 
 
 def replay_fx(ctx, payload):
